@@ -207,6 +207,22 @@ fn partial_unbonding_then_withdraw() {
     witness("end");
 }
 
+/// the bounds exactly as worded at a point where the ideal is a whole number of tokens: one delegator,
+/// 700 800 000 tokens, 59 s at 10 % / 10 % commission earn exactly 118 tokens.  The design round's
+/// analysis expected 117 to be shown here ("F9"); the real arithmetic divides by the year last and the
+/// roundings cancel: 118 is shown, both strict bounds hold.  Kept as a concrete boundary case.
+fn strict_wording_witness() {
+    let mut w = Stk::new(Cfg::default());
+    w.track_rewards = true;
+    w.fixed_amounts.push_back(700_800_000);
+    setup_positions(&mut w, &[Op::Delegate { d: 0, v: 0 }]);
+    if !w.apply(&Op::Advance { dt: DtSel::Fixed(59) }, AMT) {
+        return;
+    }
+    w.check_reward_bounds("", true);
+    witness("end");
+}
+
 pub fn scenarios(tier: &str) -> Vec<Scenario> {
     let mut v = vec![];
     v.push(Scenario::new("partial_unbonding_matures_then_withdraw", &["withdraw_ok", "unbonding_paid", "end"], partial_unbonding_then_withdraw));
@@ -224,6 +240,7 @@ pub fn scenarios(tier: &str) -> Vec<Scenario> {
         cfg.unbonding = 7;
         accrual_cfg(1, Mode::TwoConcreteStakesSymbolicTime, false, cfg)
     }));
+    v.push(Scenario::new("strict_wording_at_a_whole_token_ideal_stake_700800000_for_59_seconds", &["end"], strict_wording_witness));
     v.push(Scenario::new("split_independence", &["end"], || split(true)));
     v.push(Scenario::new("split_independence_subsecond_block_times", &["end"], split_subsecond));
     if tier == "thorough" {
